@@ -17,13 +17,14 @@ cd "$WT"
 git apply "$SRC/patch.diff" >>"$LOG" 2>&1 || { echo "$ID/$N PATCH-DOES-NOT-APPLY"; exit 1; }
 go build ./... >>"$LOG" 2>&1 || { echo "$ID/$N DOES-NOT-COMPILE"; exit 1; }
 go test -mod=mod -vet=off -count=1 ./... >>"$LOG" 2>&1 || { echo "$ID/$N SUITE-FAILS-WITH-CHANGE"; exit 1; }
+RACE=""; grep -q '"race": *true' "$SRC/meta.json" && RACE="-race"   # concurrency demos may need the race detector
 cp "$SRC/demo_test.go" zz_seeded_demo_test.go
-if go test -mod=mod -vet=off -count=1 -run TestSeeded . >>"$LOG" 2>&1; then echo "$ID/$N DEMO-PASSES-WITH-CHANGE"; exit 1; fi
+if go test $RACE -mod=mod -vet=off -count=1 -run TestSeeded . >>"$LOG" 2>&1; then echo "$ID/$N DEMO-PASSES-WITH-CHANGE"; exit 1; fi
 git checkout -q -- . ; git stash -q 2>/dev/null
 git apply -R "$SRC/patch.diff" 2>/dev/null
 git checkout -q -- . 
 cp "$SRC/demo_test.go" zz_seeded_demo_test.go
-go test -mod=mod -vet=off -count=1 -run TestSeeded . >>"$LOG" 2>&1 || { echo "$ID/$N DEMO-FAILS-WITHOUT-CHANGE"; exit 1; }
+go test $RACE -mod=mod -vet=off -count=1 -run TestSeeded . >>"$LOG" 2>&1 || { echo "$ID/$N DEMO-FAILS-WITHOUT-CHANGE"; exit 1; }
 D=/verif/seeded/$ID/$N; mkdir -p "$D"
 cp "$SRC/patch.diff" "$D/patch.diff"; cp "$SRC/demo_test.go" "$D/demo_test.go"
 HEADSHA=$(git -C /repo rev-parse --short HEAD)
@@ -31,7 +32,7 @@ python3 - "$SRC/meta.json" "$D/meta.json" "$ID" "$HEADSHA" <<'PY'
 import json,sys
 src,dst,pid,sha=sys.argv[1:5]
 m=json.load(open(src))
-out={"property":pid,"breaks":m.get("summary",""),"needs":m.get("needs",""),"files":m.get("files",[]),
+out={"property":pid,"race_detector_needed":bool(m.get("race")),"breaks":m.get("summary",""),"needs":m.get("needs",""),"files":m.get("files",[]),
  "source":"written by a sub-agent given only the property text and a scratch worktree",
  "confirmed":{"at_repo_commit":sha,"ran":["git apply patch.diff","go build ./...","go test -mod=mod -vet=off -count=1 ./...  (passes with the change)","go test -run TestSeeded . with demo_test.go as zz_seeded_demo_test.go (fails with the change, passes without)"]}}
 json.dump(out,open(dst,"w"),indent=1)
